@@ -88,6 +88,11 @@ const ENC = {
   // the selected member is itself declared as another string-keyed access of the same type (two accesses of one type nested in one resolution, no cycle)
   indexSelf: (m, c) => { const n = c.fresh('O'); const i = c.inner(m); return { type: `${n}['a']`, decls: i.decls.concat([`type ${n} = { a: ${n}['b']; b: ${i.type}; other: string };`]), map: i.map }; },
   indexSelfIface: (m, c) => { const n = c.fresh('O'); const i = c.inner(m); return { type: `${n}["a"]`, decls: i.decls.concat([`interface ${n} { a: ${n}["b"]; b: ${n}['c']; c: ${i.type} }`]), map: i.map }; },
+  // the selected member is inherited: declared by a parent (one and two levels up) of the interface that is indexed
+  indexInherited: (m, c) => { const n = c.fresh('O'), b = c.fresh('B'); const i = c.inner(m); return { type: `${n}['k']`, decls: i.decls.concat([`interface ${b} { k: ${i.type}; other: string }`, `interface ${n} extends ${b} { own: number }`]), map: i.map }; },
+  indexInherited2: (m, c) => { const n = c.fresh('O'), b = c.fresh('B'), r = c.fresh('R'); const i = c.inner(m); return { type: `${n}['k']`, decls: i.decls.concat([`interface ${r} { k: ${i.type} }`, `interface ${b} extends ${r} { k2: string }`, `interface ${n} extends ${b} {}`]), map: i.map }; },
+  // ... and an own declaration wins over the parent's
+  indexOverride: (m, c) => { const n = c.fresh('O'), b = c.fresh('B'); const i = c.inner(m); return { type: `${n}['k']`, decls: i.decls.concat([`interface ${b} { k: { wrong: 1 }; other: string }`, `interface ${n} extends ${b} { k: ${i.type} }`]), map: i.map }; },
   indexIface: (m, c) => { const n = c.fresh('O'); const i = c.inner(m); return { type: `${n}['k']`, decls: i.decls.concat([`interface ${n} { k: ${i.type}; other: string }`]), map: i.map }; },
 };
 const ENC_KEYS = Object.keys(ENC);
